@@ -174,17 +174,20 @@ def _act_in_orders_cls():
 def _orders_callback_one(args):
     """metamorphic: a strategy whose first order completes at once and which places again from process_orders a few
     updates later gets the same ledger alone and next to a strategy holding a resting order (either order)"""
-    hist_name, late_tick, b_name = args
+    hist_name, late_tick, b_name = args[:3]
+    # idle: the observed strategy has no order of its own in the market when the other one trades - whether (and with
+    # what) its process_orders is called must not depend on the other strategy either
+    idle = len(args) > 3 and args[3]
     cls = _act_in_orders_cls()
     out = []
     counts = {"clause:C13.a": 0, "orders_callback_pairs": 0, "orders_callback_followups": 0}
-    case = dict(orders_callback=[hist_name, late_tick, b_name])
+    case = dict(orders_callback=[hist_name, late_tick, b_name] + ([True] if idle else []))
 
     def run(with_b, order):
         ticks = [[200, L.EVENTS[e]] for e in HISTORIES[hist_name]]
         spec = simx.MarketSpec(book0=L.BOOK0)
         kw = dict(max_order_exposure=None, max_selection_exposure=None, max_live_trade_count=3)
-        a = dict(script={(0, 0): [L.P("XB")]}, name="A", kw=dict(kw), cls=cls)
+        a = dict(script={} if idle else {(0, 0): [L.P("XB")]}, name="A", kw=dict(kw), cls=cls)
         b = dict(script={(0, 0): [L.P(b_name)]}, name="B", kw=dict(kw))
         strategies = [a] + ([b] if with_b else [])
         if order == "BA":
@@ -203,6 +206,8 @@ def _orders_callback_one(args):
     w0, base = run(False, "AB")
     if len(base) > 1:
         counts["orders_callback_followups"] += 1
+    if idle:
+        counts["orders_callback_idle"] = 1
     for order in ("AB", "BA"):
         w, got = run(True, order)
         counts["clause:C13.a"] += 1
@@ -496,7 +501,7 @@ def _live_fault_one(args):
                 return True
 
             def sd_(market, sd, st=st):
-                seen[st.name].append(("sports", sd.publish_time))
+                seen[st.name].append(("sports", sd.publish_time, market.market_id))
                 maybe(st.name, "process_sports_data")
 
             def chk_mb(market, mb, st=st):
@@ -534,15 +539,28 @@ def _live_fault_one(args):
                 self.streaming_unique_id = sid
                 self.publish_time = pt
 
+        class SDE:  # sports data keyed by event (cricket): goes to every market of the event
+            def __init__(self, pt, event_id):
+                self.event_id = event_id
+                self.streaming_unique_id = sid
+                self.publish_time = pt
+
         for n in range(3):
             w.clock_ms += 1000
             w.set_clock()
             pt = w.clock_ms
+            if n == 1:
+                # the market closes and data for it arrives again (re-opened): later updates still come once
+                w.books["1.100000001"] = w._make_book("1.100000001", "CLOSED")
+                w.dispatch(w._book_event("1.100000001"))
+                w.books["1.100000001"] = w._make_book("1.100000001", "OPEN")
+                w.dispatch(w._book_event("1.100000001"))
+                expected["book"].append(("book", pt))
             data = [{"id": "1.100000001", "rc": []}, {"marketId": "1.55", "eventId": "9"}, {"id": "1.10000000%d" % (2 + n), "marketDefinition": {"status": "OPEN", "eventId": "1"}}]
             w.dispatch(events.RawDataEvent((sid, "clk", pt, data)))
             expected["raw"] += [("raw", pt, d.get("id", d.get("marketId"))) for d in data]
             w.dispatch(events.SportsDataEvent([SD(pt)]))
-            expected["sports"].append(("sports", pt))
+            expected["sports"].append(("sports", pt, "1.100000001"))
             w.dispatch(events.CustomEvent(n, custom_cb))
             w.books["1.10000000%d" % (7 + n)] = w._make_book("1.10000000%d" % (7 + n))
             w.dispatch(w._book_event("1.10000000%d" % (7 + n)))  # a new market: process_new_market + book callbacks
@@ -550,6 +568,10 @@ def _live_fault_one(args):
             expected["book"].append(("book", pt))
             w.dispatch(w._book_event("1.100000001"))
             expected["book"].append(("book", pt))
+            eid = fw.markets.markets["1.100000001"].event_id
+            w.dispatch(events.SportsDataEvent([SDE(pt + 1, eid)]))
+            expected["sports"] += [("sports", pt + 1, m.market_id) for m in fw.markets if m.event_id == eid]
+        counts["live_event_sports_callbacks"] = len(expected["sports"]) - 3
         if fired["f"]:
             counts["live_faults_fired"] += 1
         counts["clause:C13.d"] += 1
@@ -565,7 +587,10 @@ def _live_fault_one(args):
             counts["clause:C13.b"] += 1
             for kind in ("raw", "sports", "book", "new"):
                 got = [x for x in seen[st.name] if x[0] == kind]
-                if got != expected[kind]:
+                exp_k = expected[kind]
+                if kind == "sports":  # the order in which the markets of an event are visited is not part of the claim
+                    got, exp_k = sorted(got), sorted(exp_k)
+                if got != exp_k:
                     pred = "missing" if len(got) < len(expected[kind]) else ("duplicate" if len(got) > len(expected[kind]) else "order")
                     out.append(core.v("C13.b", key("delivery %s %s" % (kind, pred)), "strategy %s received %d of %d %s callbacks" % (st.name, len(got), len(expected[kind]), kind), case))
     finally:
@@ -615,12 +640,13 @@ def run(tier):
     runs += 2 * len(ej)
     rep.need("event_group_pairs")
     oj = [(hn, lt, bn) for hn in HISTORIES for lt in (1, 2, 3, 4) for bn in ("PB", "PL", "P2")]
+    oj += [(hn, lt, bn, True) for hn in HISTORIES for lt in (1, 3) for bn in ("PB", "XB")]
     for r in core.pmap(_orders_callback_one, oj):
         rep.add_violations(r["violations"])
         rep.merge_counts(r["counts"])
         rep.outcomes.add(r["outcome"])
     runs += 3 * len(oj)
-    rep.need("orders_callback_followups")
+    rep.need("orders_callback_followups", "orders_callback_idle")
     rep.sample({"history": "H1", "A": progs[1], "B": progs[7]})
     # fault injection: every callback kind x invocation index x exception kind x target
     fj = []
@@ -653,7 +679,7 @@ def run(tier):
         rep.merge_counts(r["counts"])
         rep.outcomes.add(r["outcome"])
     runs += len(lf)
-    rep.need("pairs_both_filled", "pairs_same_price_competition", "faults_fired", "live_faults_fired")
+    rep.need("pairs_both_filled", "pairs_same_price_competition", "faults_fired", "live_faults_fired", "live_event_sports_callbacks")
     rep.sample({"fault_injection": fj[len(fj) // 2]})
     rep.states = runs
     rep.transitions = runs
